@@ -446,6 +446,71 @@ func suiteND(rn *runner, r *rng, tier string) {
 		rn.rep.Distribution["trailing-blanks-at-buffer-boundary/sweep"]++
 		rn.seen["trailing-blanks-at-buffer-boundary/sweep"] = true
 	}
+	// long lines: a line of every length class from 100 bytes to 300 KiB as the first, a middle or the last line among
+	// short ones (valid: the number of roots is known by construction), and one document broken over two lines after
+	// that many bytes (not NDJSON: must be rejected) — where the line feeds sit in the input must not matter
+	{
+		bad := 0
+		lens := []int{100, 1000, 4090, 8100, 8192, 8300, 10000, 16500, 40000, 70000, 140000, 300000}
+		if tier == "thorough" {
+			for l := 7000; l <= 9400; l += 64 {
+				lens = append(lens, l+r.intn(64))
+			}
+			for k := 0; k < 40; k++ {
+				lens = append(lens, 100+r.intn(400000))
+			}
+		}
+		for _, L := range lens {
+			for shape := 0; shape < 4 && bad < 3; shape++ {
+				cr := r.fork()
+				var long string
+				switch shape % 2 {
+				case 0:
+					long = "{\"pad\":\"" + strings.Repeat("x", L) + "\",\"n\":[1,2]}"
+				default:
+					long = "[" + strings.Repeat("1,", L/2) + "2]"
+				}
+				before, after := cr.intn(3), 1+cr.intn(3)
+				if shape >= 2 {
+					before = 0
+				}
+				text := strings.Repeat("{\"s\":1}\n", before) + long + strings.Repeat("\n[true]", after)
+				want := before + 1 + after
+				if cr.chance(1, 3) {
+					text += "\n"
+				}
+				for variant := 0; variant < 2; variant++ {
+					wantS := fmt.Sprintf("%d roots", want)
+					if variant == 1 { // the long document is broken over two lines near its end
+						cut := strings.LastIndex(text[:len(strings.Repeat("{\"s\":1}\n", before))+len(long)], ",")
+						text = text[:cut+1] + "\n" + text[cut+1:]
+						wantS = "rejected"
+					}
+					pj, err := simdjson.ParseND([]byte(text), nil)
+					impl := "rejected"
+					if err == nil {
+						got := 0
+						it := pj.Iter()
+						for it.Advance() == simdjson.TypeRoot {
+							got++
+						}
+						impl = fmt.Sprintf("%d roots", got)
+					}
+					rn.rep.Evaluations++
+					if impl != wantS {
+						bad++
+						if err != nil {
+							impl += ": " + err.Error()
+						}
+						rn.disagree(disagreement{Kind: "spec", Ops: []string{"parse p 1 1 " + hx([]byte(text)), "owalk p"}, At: 0, Impl: impl,
+							Other: wantS, Note: fmt.Sprintf("nd: a line of about %d bytes after %d short lines and before %d (variant %d: 1 = broken over two lines)", L, before, after, variant)})
+					}
+				}
+			}
+		}
+		rn.rep.Distribution["long-lines/sweep"]++
+		rn.seen["long-lines/sweep"] = true
+	}
 	for i := 0; i < n; i++ {
 		cr := r.fork()
 		cfg := defaultCfg(cr)
